@@ -279,7 +279,7 @@ Proof.
   assert (HW : W = e1 ++ e2).
   { unfold W, whole_events. rewrite <- (parse_all_chunkings hm (cs1 ++ cs2) received eq_refl).
     now rewrite Hsp. }
-  rewrite all_empty_concat. unfold received in *.
+  rewrite all_empty_concat. unfold received in *. unfold bytes in *.
   set (pre := if is_nil (concat (cs1 ++ cs2)) then [] else [PRecv]).
   assert (Hp : has_head pre = false) by (unfold pre; destruct (is_nil (concat (cs1 ++ cs2))); reflexivity).
   set (lostl := if lost then [PLost] else []).
@@ -302,17 +302,97 @@ Proof.
     + destruct e1 as [|x e1'].
       * cbn [app] in He. subst e2. cbn [has_head existsb app deliver_at_head].
         unfold run.
-        replace (pre ++ (PHead c f :: UDeliver :: R) ++ lostl)
-          with ((pre ++ [PHead c f]) ++ UDeliver :: (R ++ lostl)) by (now rewrite <- !app_assoc).
+        transitivity (fold_left step ((pre ++ [PHead c f]) ++ UDeliver :: (R ++ lostl)) init);
+          [f_equal; now rewrite <- !app_assoc|].
         rewrite deliver_to_end by (now rewrite has_head_app, HR, Hl).
         f_equal. now rewrite <- !app_assoc.
       * cbn [app] in He. inversion He; subst x R. clear He.
         cbn [has_head existsb orb].
         rewrite has_head_app in HR. apply orb_false_iff in HR. destruct HR as [_ H2].
         unfold run.
-        replace (pre ++ ((PHead c f :: e1') ++ UDeliver :: e2) ++ lostl)
-          with ((pre ++ PHead c f :: e1') ++ UDeliver :: (e2 ++ lostl)) by (now rewrite <- !app_assoc).
+        transitivity (fold_left step ((pre ++ PHead c f :: e1') ++ UDeliver :: (e2 ++ lostl)) init);
+          [f_equal; now rewrite <- !app_assoc|].
         rewrite deliver_to_end by (now rewrite has_head_app, H2, Hl).
         f_equal. now rewrite <- !app_assoc.
   - (* TAfterLost *) now rewrite HW.
 Qed.
+
+(** * the three statements of the property, for every byte stream / segmentation / truncation *)
+Section Corollaries.
+  Variables (hm : bool) (cs1 cs2 : list bytes) (t : dtime) (lost : bool).
+  Let received := concat (cs1 ++ cs2).
+  Let W := whole_events hm received.
+  Let s := run (session hm cs1 cs2 t lost).
+
+  Lemma fires_once_bytes :
+    (length (m_fired s) <= 1)%nat
+    /\ (lost = true -> length (m_fired s) = 1%nat)
+    /\ (forall c, m_fired s = [FResponse c] <-> exists f, head_of W = Some (c, f))
+    /\ (head_of W = None -> lost = true -> m_fired s = [if is_nil received then FNever else FFailed]).
+  Proof.
+    destruct (session_outcome hm cs1 cs2 t lost) as (Hf & _ & _).
+    fold received W s in Hf. rewrite Hf. unfold expected_fired.
+    destruct (head_of W) as [[c f]|].
+    - split; [cbn; lia|]. split; [reflexivity|]. split.
+      + intro c'. split.
+        * intros [=]; subst; eauto.
+        * intros (f' & [=]); subst; reflexivity.
+      + discriminate.
+    - split; [destruct (lost || failed W); cbn; lia|]. split; [intros ->; reflexivity|]. split.
+      + intro c'. split.
+        * destruct (lost || failed W); [destruct (is_nil received)|]; discriminate.
+        * intros (f & [=]).
+      + intros _ ->. reflexivity.
+  Qed.
+
+  Lemma body_exact_bytes :
+    m_delivered s = match head_of W with
+                    | Some _ => if asked_for t then body_of W else []
+                    | None => []
+                    end.
+  Proof. destruct (session_outcome hm cs1 cs2 t lost) as (_ & Hd & _). exact Hd. Qed.
+
+  Lemma closed_once_bytes :
+    (length (m_closed s) <= 1)%nat
+    /\ m_closed s =
+       match head_of W with
+       | Some (_, f) =>
+           if asked_for t && (lost || finished W || failed W || immediate f)
+           then [match f with
+                 | FClose => RPotentialDataLoss
+                 | FNoBody => RDone
+                 | FLen n => if N.eqb n 0 || finished W then RDone else RFailed
+                 | FChunked => if finished W then RDone else RFailed
+                 end]
+           else []
+       | None => []
+       end.
+  Proof.
+    destruct (session_outcome hm cs1 cs2 t lost) as (_ & _ & Hc).
+    fold received W s in Hc. rewrite Hc. unfold expected_closed.
+    destruct (head_of W) as [[c f]|]; [|split; [cbn; lia | reflexivity]].
+    rewrite reason_table.
+    destruct (asked_for t && (lost || finished W || failed W || immediate f)); split; cbn; auto.
+  Qed.
+End Corollaries.
+
+(** * non-trivial instances *)
+Definition ex_wire : bytes :=   (* HTTP/1.1 100 C\r\n\r\nHTTP/1.1 200 OK\r\nTransfer-Encoding: chunked\r\n\r\n3\r\nabc\r\n0\r\n\r\n *)
+  [72;84;84;80;47;49;46;49;32;49;48;48;32;67;13;10;13;10;
+   72;84;84;80;47;49;46;49;32;50;48;48;32;79;75;13;10;
+   84;114;97;110;115;102;101;114;45;69;110;99;111;100;105;110;103;58;32;99;104;117;110;107;101;100;13;10;13;10;
+   51;13;10;97;98;99;13;10;48;13;10;13;10].
+
+Example read_complete :
+  whole_events false ex_wire = [PHead 200 FChunked; PData [97]; PData [98]; PData [99]; PFinish].
+Proof. vm_compute. reflexivity. Qed.
+
+Example read_truncated :
+  whole_events false (firstn 70 ex_wire) = [PHead 200 FChunked; PData [97]; PData [98]]
+  /\ whole_events false (firstn 40 ex_wire) = [].
+Proof. split; vm_compute; reflexivity. Qed.
+
+Example session_truncated :
+  let s := run (session false [firstn 30 ex_wire; firstn 38 (skipn 30 ex_wire)] [firstn 2 (skipn 68 ex_wire)] TBetween true) in
+  m_fired s = [FResponse 200] /\ m_delivered s = [97; 98] /\ m_closed s = [RFailed].
+Proof. vm_compute. repeat split. Qed.
